@@ -112,3 +112,732 @@ def mon_partition(ctx):
     if ctx['exc'] is not None or _act(ctx) == 'observe':
         return []
     return check_partition(ctx['post'])
+
+
+# --------------------------------------------------------------------------------------------
+# helpers shared by C02 / C10 / C12
+# --------------------------------------------------------------------------------------------
+
+def view_start(s):
+    if s._discard_exploration and s.explored:
+        return [int(x) for x in s.shell_end_exp]
+    return [0] * len(s.points)
+
+
+def _close(a, b, rtol=RTOL):
+    a = float(a)
+    b = float(b)
+    if np.isnan(a) or np.isnan(b):
+        return np.isnan(a) and np.isnan(b)
+    if np.isinf(a) or np.isinf(b):
+        return a == b
+    return abs(a - b) <= rtol * max(1.0, abs(a), abs(b))
+
+
+def kish(log_w):
+    """(sum w)^2 / sum w^2 from log weights (independent of the implementation's shell route)"""
+    log_w = np.asarray(log_w, dtype=float)
+    fin = log_w[np.isfinite(log_w)]
+    if len(fin) == 0:
+        return 0.0
+    w = np.exp(fin - np.max(fin))
+    return float(np.sum(w) ** 2 / np.sum(w * w))
+
+
+def reference_estimators(s):
+    """Independent recomputation from the raw arrays only: points/log_l per shell, bounds[i].log_v,
+    shell_n_sample (validated against the proposal tally), shell_end_exp / shell_n_sample_exp."""
+    nb = len(s.bounds)
+    start = view_start(s)
+    disc = bool(s._discard_exploration and s.explored)
+    n = []
+    prop = []
+    log_v = []
+    terms = []
+    for i in range(nb):
+        ll = np.asarray(s.log_l[i])[start[i]:]
+        ni = len(ll)
+        pi = int(s.shell_n_sample[i]) - (int(s.shell_n_sample_exp[i]) if disc else 0)
+        n.append(ni)
+        prop.append(pi)
+        if ni > 0:
+            with np.errstate(all='ignore'):
+                lv = float(s.bounds[i].log_v) + np.log(ni / pi) if pi > 0 else np.nan
+            log_v.append(lv)
+            terms.append(ll + lv - np.log(ni))
+        else:
+            log_v.append(-np.inf)
+            terms.append(np.zeros(0))
+    allt = np.concatenate(terms) if terms else np.zeros(0)
+    return dict(n=n, proposals=prop, log_v=log_v, terms=terms, all=allt, start=start)
+
+
+# --------------------------------------------------------------------------------------------
+# C02  M-estimators
+# --------------------------------------------------------------------------------------------
+
+def check_estimators(s, prop='C02', where=''):
+    out = []
+    nb = len(s.bounds)
+
+    def V(sig, msg):
+        out.append(Violation(prop, 'estimators:' + sig + where, msg))
+
+    # alignment of per-shell bookkeeping
+    for name in ('shell_n', 'shell_n_sample', 'shell_n_eff', 'shell_log_l_min', 'shell_log_l',
+                 'shell_log_v'):
+        if len(getattr(s, name)) != nb:
+            V('array-length:' + name, '{} has length {} for {} bounds'.format(
+                name, len(getattr(s, name)), nb))
+            return out
+    if len(s.points) != nb or len(s.log_l) != nb or (s.blobs is not None and len(s.blobs) != nb):
+        V('list-length', 'points/log_l/blobs lists do not have one entry per bound')
+        return out
+    if s.explored and (len(s.shell_end_exp) != nb or len(s.shell_n_sample_exp) != nb):
+        V('array-length:exp', 'shell_end_exp/shell_n_sample_exp length != number of bounds')
+        return out
+    for i in range(nb):
+        if len(s.points[i]) != len(s.log_l[i]):
+            V('rows:points-vs-log_l', 'shell {}: {} points, {} log_l'.format(
+                i, len(s.points[i]), len(s.log_l[i])))
+        if s.blobs is not None and len(s.blobs[i]) != len(s.log_l[i]):
+            V('rows:blobs-vs-log_l', 'shell {}: {} blobs, {} log_l'.format(
+                i, len(s.blobs[i]), len(s.log_l[i])))
+    if out:
+        return out
+    ref = reference_estimators(s)
+    for i in range(nb):
+        if int(s.shell_n[i]) != ref['n'][i]:
+            V('shell_n', 'shell {}: shell_n={} but {} rows in the current view'.format(
+                i, int(s.shell_n[i]), ref['n'][i]))
+        if ref['n'][i] > 0:
+            if ref['n'][i] > ref['proposals'][i]:
+                V('count-exceeds-proposals', 'shell {}: {} samples from {} proposals'.format(
+                    i, ref['n'][i], ref['proposals'][i]))
+            elif not _close(s.shell_log_v[i], ref['log_v'][i]):
+                V('shell_log_v', 'shell {}: shell_log_v={!r}, bound.log_v+log(n/proposals)={!r}'
+                  .format(i, float(s.shell_log_v[i]), ref['log_v'][i]))
+            ll = np.asarray(s.log_l[i])[ref['start'][i]:]
+            with np.errstate(all='ignore'):
+                exp_ll = logsumexp(ll) - np.log(len(ll))
+            if not _close(s.shell_log_l[i], exp_ll):
+                V('shell_log_l', 'shell {}: shell_log_l={!r} expected {!r}'.format(
+                    i, float(s.shell_log_l[i]), float(exp_ll)))
+            k = kish(ll) if np.any(np.isfinite(ll)) else float(len(ll))
+            if not _close(s.shell_n_eff[i], k):
+                V('shell_n_eff', 'shell {}: shell_n_eff={!r} expected {!r}'.format(
+                    i, float(s.shell_n_eff[i]), k))
+    if out:
+        return out
+    allt = ref['all']
+    if len(allt) == 0 or not np.any(np.isfinite(allt)):
+        return out          # estimators undefined (no sample / all -inf): skipped, see DESIGN
+    with np.errstate(all='ignore'):
+        log_z = float(logsumexp(allt))
+    if s.log_z is None or not _close(s.log_z, log_z):
+        V('log_z', 'log_z={!r}, recomputed from stored samples {!r}'.format(s.log_z, log_z))
+    ne = kish(allt)
+    if not _close(s.n_eff, ne):
+        V('n_eff', 'n_eff={!r}, Kish of stored sample weights {!r}'.format(float(s.n_eff), ne))
+    # eta: documented formula from raw per-shell quantities
+    zs, etas = [], []
+    for i in range(nb):
+        if ref['n'][i] > 0:
+            t = ref['terms'][i]
+            with np.errstate(all='ignore'):
+                zi = logsumexp(t)
+            ll = np.asarray(s.log_l[i])[ref['start'][i]:]
+            ki = kish(ll) if np.any(np.isfinite(ll)) else float(len(ll))
+            zs.append(zi)
+            etas.append(ki / ref['n'][i])
+    with np.errstate(all='ignore'):
+        zs = np.array(zs)
+        etas = np.array(etas)
+        eta = float(np.exp(2 * logsumexp(zs) - 2 * logsumexp(zs - 0.5 * np.log(etas))))
+    try:
+        with np.errstate(all='ignore'):
+            got = float(s.eta)
+    except Exception as e:
+        got = None
+        V('eta-raises', 'eta raised {}'.format(type(e).__name__))
+    if got is not None and not _close(got, eta, 1e-8):
+        V('eta', 'eta={!r}, documented formula on stored samples {!r}'.format(got, eta))
+    # posterior(): weights are the per-sample terms normalised to one
+    try:
+        with np.errstate(all='ignore'):
+            res = s.posterior()
+    except Exception as e:
+        V('posterior-raises:' + type(e).__name__, 'posterior() raised: {}'.format(e))
+        return out
+    log_w = np.asarray(res[1])
+    exp_w = allt - log_z
+    if len(log_w) != len(exp_w):
+        V('posterior-length', 'posterior() returns {} rows, the view holds {}'.format(
+            len(log_w), len(exp_w)))
+        return out
+    fin = np.isfinite(exp_w)
+    if not np.array_equal(np.isfinite(log_w), fin) or (np.any(fin) and np.max(np.abs(
+            log_w[fin] - exp_w[fin])) > 1e-9 * max(1.0, np.max(np.abs(exp_w[fin])))):
+        V('posterior-weights', 'posterior() weights differ from normalised L*V/n of the stored samples'
+          ' (max abs diff {})'.format(float(np.nanmax(np.abs(np.where(fin, log_w - exp_w, 0))))))
+    with np.errstate(all='ignore'):
+        if np.any(np.isfinite(log_w)) and abs(float(logsumexp(log_w))) > 1e-9:
+            V('posterior-normalisation', 'logsumexp(log_w)={!r}'.format(float(logsumexp(log_w))))
+    exp_l = np.concatenate([np.asarray(s.log_l[i])[ref['start'][i]:] for i in range(nb)])
+    if not np.array_equal(np.asarray(res[2]), exp_l):
+        V('posterior-log_l', 'posterior() log_l is not the concatenation of the stored log_l')
+    return out
+
+
+def tally_check(ctx, prop='C02'):
+    """shell_n_sample increments == points handed out by the bounds' sample() (independent tally)"""
+    if ctx['exc'] is not None or _act(ctx) in ('resume', 'observe', 'toggle', 'sched'):
+        return []
+    s = ctx['post']
+    pre = ctx['pre']
+    before = {bid: j for j, bid in enumerate(ctx['bound_ids_before'])}
+    tal = {}
+    for bid, n_req, n_ret in ctx['tally']:
+        tal[bid] = tal.get(bid, 0) + n_ret
+    out = []
+    known = set()
+    for j, b in enumerate(s.bounds):
+        bid = id(b)
+        known.add(bid)
+        base = int(pre.shell_n_sample[before[bid]]) if bid in before else 0
+        if int(s.shell_n_sample[j]) != base + tal.get(bid, 0):
+            out.append(Violation(prop, 'tally:shell_n_sample',
+                                 'shell {}: shell_n_sample went {} -> {} but its bound handed out {} '
+                                 'proposals'.format(j, base, int(s.shell_n_sample[j]),
+                                                    tal.get(bid, 0))))
+    for bid, n in tal.items():
+        if bid not in known and bid not in before and n > 0:
+            pass        # a freshly built and rejected bound is never sampled with return_points
+    return out
+
+
+def mon_estimators(ctx):
+    if ctx['exc'] is not None or _act(ctx) == 'observe':
+        return []
+    return check_estimators(ctx['post']) + tally_check(ctx)
+
+
+# --------------------------------------------------------------------------------------------
+# C03  M-rows
+# --------------------------------------------------------------------------------------------
+
+def _as_matrix(points, scn):
+    """posterior() points -> (n, d) float array whatever the return convention"""
+    keys = scn.keys_()
+    if isinstance(points, dict):
+        return np.stack([np.asarray(points[k]) for k in keys], axis=-1)
+    points = np.asarray(points)
+    if points.dtype == object:
+        return np.array([[np.asarray(r[k])[()] for k in keys] for r in points], dtype=float)
+    return points
+
+
+def _blob_columns(blobs, kind):
+    """stored blob array -> list of comparable columns"""
+    if kind in ('float', 'int', 'f32', 'array'):
+        return [np.asarray(blobs)]
+    if kind == 'two':
+        return [np.asarray(blobs['blob_0']), np.asarray(blobs['blob_1'])]
+    if kind == 'struct':
+        return [np.asarray(blobs['a']), np.asarray(blobs['tag'])]
+    raise ValueError(kind)
+
+
+def _expected_blob_columns(scn, x):
+    from . import scen
+    c = [x[..., i] for i in range(x.shape[-1])]
+    b = scen._blobs(scn['blob'], c)
+    kind = scn['blob']
+    if kind == 'f32':
+        return [np.asarray(b[0]).astype(np.float32)]
+    if kind == 'struct':
+        return [np.asarray(b[0]), np.asarray(b[1]).astype('S4')]
+    return [np.asarray(bi) for bi in b]
+
+
+def _rows_key(cols):
+    """one bytes key per row from a list of column arrays"""
+    n = len(cols[0])
+    parts = [np.ascontiguousarray(c).reshape(n, -1) for c in cols]
+    parts = [p.view(np.uint8).reshape(n, -1) if p.dtype.kind != 'S' else
+             np.frombuffer(p.tobytes(), dtype=np.uint8).reshape(n, -1) for p in parts]
+    m = np.concatenate(parts, axis=1)
+    return [r.tobytes() for r in m]
+
+
+def check_rows(s, scn, prop='C03', where=''):
+    out = []
+
+    def V(sig, msg):
+        out.append(Violation(prop, 'rows:' + sig + where, msg))
+
+    if len(s.bounds) == 0 or int(np.sum([len(x) for x in s.log_l])) == 0:
+        return out
+    start = view_start(s)
+    if sum(len(s.log_l[i]) - start[i] for i in range(len(s.log_l))) == 0:
+        return out
+    kind = scn['blob']
+    try:
+        with np.errstate(all='ignore'):
+            res = s.posterior(return_blobs=True) if kind != 'none' else s.posterior()
+    except Exception as e:
+        V('posterior-raises:' + type(e).__name__, 'posterior() raised {}: {}'.format(
+            type(e).__name__, e))
+        return out
+    pts = _as_matrix(res[0], scn)
+    log_w, log_l = np.asarray(res[1]), np.asarray(res[2])
+    n = len(log_l)
+    if not (len(pts) == n == len(log_w)) or (kind != 'none' and len(res[3]) != n):
+        V('lengths', 'posterior() arrays have different lengths: points {}, log_w {}, log_l {}{}'
+          .format(len(pts), len(log_w), n, '' if kind == 'none' else ', blobs {}'.format(
+              len(res[3]))))
+        return out
+    # faithful triple: re-evaluate the pure likelihood on the returned point
+    with np.errstate(all='ignore'):
+        val = scn.pure(pts)
+    exp_l = np.asarray(val[0] if isinstance(val, tuple) else val, dtype=float)
+    if not np.array_equal(exp_l, log_l, equal_nan=True):
+        bad = int(np.sum(~((exp_l == log_l) | (np.isnan(exp_l) & np.isnan(log_l)))))
+        V('log_l-mismatch', '{} of {} posterior rows carry a log-likelihood that is not the one '
+          'the likelihood returns for the row\'s point'.format(bad, n))
+    if kind != 'none':
+        blobs = res[3]
+        try:
+            got = _blob_columns(blobs, kind)
+            exp = _expected_blob_columns(scn, pts)
+            for gi, ei in zip(got, exp):
+                if gi.shape != ei.shape or not np.array_equal(gi, ei):
+                    badn = n if gi.shape != ei.shape else int(np.sum(np.any(
+                        (gi != ei).reshape(n, -1), axis=1)))
+                    V('blob-mismatch', '{} of {} posterior rows carry a blob that is not the one '
+                      'the likelihood returns for the row\'s point (shapes {} vs {})'.format(
+                          badn, n, gi.shape, ei.shape))
+                    break
+        except (ValueError, KeyError, IndexError) as e:
+            V('blob-layout:' + type(e).__name__, 'blob array has unexpected layout: {} (dtype {})'
+              .format(e, getattr(blobs, 'dtype', None)))
+    # once each
+    keys = _rows_key([pts])
+    if len(set(keys)) != n:
+        V('duplicate-rows', '{} posterior rows but only {} distinct points'.format(
+            n, len(set(keys))))
+    # multiset of rows == multiset over the stored unit-cube points in view
+    unit = np.concatenate([np.asarray(s.points[i])[start[i]:] for i in range(len(s.points))])
+    if len(unit) != n:
+        V('row-count', '{} rows returned, {} stored points in view'.format(n, len(unit)))
+    else:
+        with np.errstate(all='ignore'):
+            phys = _as_matrix(_transform(s, scn, unit), scn)
+        if sorted(_rows_key([phys])) != sorted(keys):
+            V('rows-not-stored-points', 'posterior() points are not the transformed stored points')
+    # stored arrays themselves: log_l[i][j] == L(points[i][j])
+    return out
+
+
+def _transform(s, scn, unit):
+    """the prior transform as posterior() applies it (vectorised application of the same pure map)"""
+    if scn['prior'] in ('identity', 'inplace'):
+        return np.array(unit, copy=True)
+    if scn['prior'] == 'dictfn':
+        return {k: unit[..., i] for i, k in enumerate(scn.keys_())}
+    if callable(s.prior):
+        return s.prior(np.array(unit, copy=True))
+    return s.prior.unit_to_physical(np.array(unit, copy=True))
+
+
+def mon_rows(ctx):
+    if ctx['exc'] is not None or _act(ctx) == 'observe':
+        return []
+    from . import scen
+    on = scen.LOG['on']
+    scen.LOG['on'] = False
+    try:
+        return check_rows(ctx['post'], ctx['scn'])
+    finally:
+        scen.LOG['on'] = on
+
+
+# --------------------------------------------------------------------------------------------
+# C05  M-once
+# --------------------------------------------------------------------------------------------
+
+def mon_once(prop='C05'):
+    def mon(ctx):
+        if ctx['exc'] is None and ctx.get('dup_points'):
+            return [Violation(prop, 'once:point-evaluated-twice',
+                              'action {} evaluated a point that was already evaluated on this path '
+                              '(or twice in one batch)'.format(ctx['action']))]
+        return []
+    return mon
+
+
+# --------------------------------------------------------------------------------------------
+# C10  M-calls
+# --------------------------------------------------------------------------------------------
+
+def success_predicate(s, n_shell, n_eff):
+    """independent recomputation of run()'s documented success condition; returns (bool, margin_ok)
+    where margin_ok is False when the recomputed n_eff is within 1e-9 relative of the target"""
+    if not s.explored:
+        return False, True
+    ref = reference_estimators(s)
+    if not all(n >= n_shell for n in ref['n']):
+        return False, True
+    k = kish(ref['all'])
+    margin_ok = abs(k - n_eff) > 1e-9 * max(1.0, abs(n_eff))
+    return k >= n_eff, margin_ok
+
+
+def mon_calls(ctx):
+    prop = 'C10'
+    out = []
+    act = _act(ctx)
+    if ctx['exc'] is not None or act in ('observe', 'toggle', 'sched'):
+        return out
+    pre, s, scn = ctx['pre'], ctx['post'], ctx['scn']
+    nb = scn['n_batch']
+
+    def V(sig, msg):
+        out.append(Violation(prop, 'calls:' + sig, msg))
+
+    n_logged = sum(int(np.atleast_2d(a).shape[0]) for a in ctx['log_like'])
+    n_prior = sum(int(np.atleast_2d(a).shape[0]) for a in ctx['log_prior'])
+    d_like = int(s.n_like) - int(pre.n_like)
+    if act == 'resume':
+        if d_like != 0 and ctx['state'].file is not None:
+            V('resume-count', 'resumed sampler reports n_like={} but the stopped one had {}'.format(
+                int(s.n_like), int(pre.n_like)))
+        if n_logged:
+            V('resume-evaluates', 'resuming evaluated the likelihood {} times'.format(n_logged))
+        return out
+    if d_like != n_logged:
+        V('counter', 'n_like grew by {} but the likelihood received {} points'.format(
+            d_like, n_logged))
+    if n_prior != n_logged:
+        V('prior-vs-like', 'prior transformed {} points, likelihood received {}'.format(
+            n_prior, n_logged))
+    for k, e in enumerate(ctx['evals']):
+        if e != nb:
+            V('batch-size', 'a step evaluated a batch of {} points, n_batch={}'.format(e, nb))
+            break
+    if sum(ctx['evals']) != n_logged:
+        V('outside-batches', '{} points evaluated outside evaluate_likelihood batches'.format(
+            n_logged - sum(ctx['evals'])))
+    for a in ctx['log_prior']:
+        a = np.atleast_2d(a)
+        if not np.all((a >= 0) & (a < 1)):
+            V('support', 'a point outside [0,1)^d was passed to the prior/likelihood: {}'.format(
+                a[~np.all((a >= 0) & (a < 1), axis=1)][0].tolist()))
+            break
+    # budget / timeout / return value
+    n_eff_t, n_shell_t = ctx['new'].target if ctx['new'] is not None else ctx['state'].target
+    k = len(ctx['evals'])
+    n_like_max = None
+    timeout = None
+    if act in ('step', 'raise', 'runarg'):
+        n_like_max = int(pre.n_like) + 1
+    elif act == 'run2':
+        n_like_max = int(pre.n_like) + nb + 1
+    elif act == 'cap':
+        n_like_max = dict(zero=0, below=int(pre.n_like) - 1, at=int(pre.n_like))[ctx['action'][1]]
+    elif act == 'tick':
+        timeout = ctx['action'][1]
+    if n_like_max is not None and k > 0:
+        if not int(pre.n_like) + (k - 1) * nb < n_like_max:
+            V('budget', 'a batch was started with n_like={} >= n_like_max={}'.format(
+                int(pre.n_like) + (k - 1) * nb, n_like_max))
+    if act == 'cap' or (act == 'tick' and timeout in (0, 1)):
+        if n_logged or d_like:
+            V('limit-reached-but-evaluated', '{} with the limit already reached evaluated {} '
+              'points'.format(ctx['action'], n_logged))
+    if timeout is not None and k > max(timeout - 1, 0):
+        V('timeout', 'timeout={} virtual ticks allows {} batches, {} were run'.format(
+            timeout, max(timeout - 1, 0), k))
+    ret = ctx['ret']
+    if ret is not None:
+        want, margin_ok = success_predicate(s, n_shell_t, n_eff_t)
+        if margin_ok and bool(ret) != bool(want):
+            V('return-value', 'run() returned {} but explored={}, min shell count={}, recomputed '
+              'n_eff={!r} (targets n_shell={}, n_eff={})'.format(
+                  bool(ret), bool(s.explored),
+                  min(reference_estimators(s)['n']) if len(s.bounds) else None,
+                  kish(reference_estimators(s)['all']), n_shell_t, n_eff_t))
+        if not bool(ret) and margin_ok and not want:
+            # a False return must be explained by a limit that was really reached
+            reached = False
+            if n_like_max is not None and int(s.n_like) >= n_like_max:
+                reached = True
+            if timeout is not None and k >= max(timeout - 1, 0):
+                reached = True
+            if act == 'finish':
+                reached = False
+            if not reached:
+                V('early-stop', 'run() returned False although neither n_like_max nor the timeout '
+                  'was reached (n_like={}, limit={}, timeout={}, batches={})'.format(
+                      int(s.n_like), n_like_max, timeout, k))
+    return out
+
+
+# --------------------------------------------------------------------------------------------
+# C11  M-pure
+# --------------------------------------------------------------------------------------------
+
+def mon_pure(ctx):
+    prop = 'C11'
+    act = _act(ctx)
+    if act != 'observe':
+        return []
+    if ctx['exc'] is not None:
+        typ, msg, site = ctx['exc']
+        return [Violation(prop, 'pure:accessor-raises:{}:{}'.format(typ, site),
+                          'a read-only accessor raised {}: {}'.format(typ, msg))]
+    st, new = ctx['state'], ctx['new']
+    out = []
+    if new.skey != st.skey:
+        out.append(Violation(prop, 'pure:accessor-changes-sampler',
+                             'calling the read-only accessors changed the sampler state ({})'.format(
+                                 _diff_fields(ctx['pre'], ctx['post']))))
+    if new.fkey != st.fkey:
+        out.append(Violation(prop, 'pure:accessor-changes-file',
+                             'calling the read-only accessors changed the checkpoint file'))
+    if ctx['log_like']:
+        out.append(Violation(prop, 'pure:accessor-evaluates', 'an accessor evaluated the likelihood'))
+    return out
+
+
+def _diff_fields(a, b):
+    names = []
+    for k in sorted(set(a.__dict__) | set(b.__dict__)):
+        if k in core.SAMPLER_EXCLUDE:
+            continue
+        if core.digest(a.__dict__.get(k)) != core.digest(b.__dict__.get(k)):
+            names.append(k)
+    return ','.join(names)
+
+
+def mon_noop(prop):
+    """cap / tick(0) / tick(1) on a sampler that already has bounds must change nothing"""
+    def mon(ctx):
+        act = _act(ctx)
+        if ctx['exc'] is not None:
+            return []
+        if not (act == 'cap' or (act == 'tick' and ctx['action'][1] in (0, 1))):
+            return []
+        if len(ctx['pre'].bounds) == 0:
+            return []
+        st, new = ctx['state'], ctx['new']
+        if new.skey != st.skey or new.fkey != st.fkey or new.ekey != st.ekey:
+            return [Violation(prop, 'noop:{}-changes-state'.format(act),
+                              '{} with the limit already reached changed the state ({})'.format(
+                                  ctx['action'], _diff_fields(ctx['pre'], ctx['post'])))]
+        return []
+    return mon
+
+
+# --------------------------------------------------------------------------------------------
+# C12  M-freeze / M-toggle / resume fidelity
+# --------------------------------------------------------------------------------------------
+
+def bound_structure(b):
+    """what defines the REGION of a bound - not its sampling caches, counters or generator.
+    Identical for a native bound and its read-back."""
+    name = type(b).__name__
+    if name == 'UnitCube':
+        return ['cube', int(b.n_dim)]
+    if name == 'Ellipsoid':
+        return ['ell', np.asarray(b.c), np.asarray(b.A), np.asarray(b.B), np.asarray(b.B_inv)]
+    if name == 'UnitCubeEllipsoidMixture':
+        return ['mix', np.asarray(b.dim_cube).astype(int),
+                None if b.ellipsoid is None else bound_structure(b.ellipsoid)]
+    if name == 'Union':
+        return ['union', getattr(b, 'cube', None) is not None,
+                [bound_structure(x) for x in b.bounds], np.asarray(b.log_v_all),
+                [np.asarray(p) for p in b.points_bounds]]
+    if name == 'NeuralBound':
+        em = None
+        if b.emulator is not None:
+            em = [np.asarray(b.emulator.mean), np.asarray(b.emulator.scale),
+                  [[np.asarray(c) for c in n.coefs_] + [np.asarray(c) for c in n.intercepts_]
+                   for n in b.emulator.neural_networks]]
+        return ['neural', bound_structure(b.outer_bound), float(b.score_predict_min), em]
+    if name == 'NautilusBound':
+        sh = None
+        if b.shift is not None:
+            sh = [np.asarray(b.shift.periodic).astype(int), np.asarray(b.shift.centers)]
+        return ['nautilus', sh, [bound_structure(x) for x in b.neural_bounds],
+                bound_structure(b.outer_bound)]
+    raise TypeError(name)
+
+
+def mon_freeze(ctx):
+    prop = 'C12'
+    if ctx['exc'] is not None or _act(ctx) in ('observe', 'sched'):
+        return []
+    pre, s = ctx['pre'], ctx['post']
+    out = []
+
+    def V(sig, msg):
+        out.append(Violation(prop, 'freeze:' + sig, msg))
+
+    if s.explored:
+        for i, p in enumerate(s.points):
+            if len(p) == 0:
+                V('empty-shell-after-exploration', 'shell {} of {} stores no sample although '
+                  'exploration has finished'.format(i, len(s.points)))
+                break
+    if not pre.explored:
+        return out
+    if not s.explored:
+        V('exploration-resumed', 'explored went from True to False on {}'.format(ctx['action']))
+        return out
+    if len(s.bounds) != len(pre.bounds):
+        V('bounds-changed', 'number of bounds changed {} -> {} after exploration had finished'
+          .format(len(pre.bounds), len(s.bounds)))
+        return out
+    for i, (a, b) in enumerate(zip(pre.bounds, s.bounds)):
+        if core.digest(bound_structure(a)) != core.digest(bound_structure(b)):
+            V('bound-altered', 'bound {} changed structurally after exploration had finished ({})'
+              .format(i, _act(ctx)))
+            break
+    for name in ('shell_end_exp', 'shell_n_sample_exp'):
+        if not np.array_equal(np.asarray(getattr(pre, name)), np.asarray(getattr(s, name))):
+            V(name + '-changed', '{} changed after exploration: {} -> {}'.format(
+                name, np.asarray(getattr(pre, name)).tolist(),
+                np.asarray(getattr(s, name)).tolist()))
+    lists = [('points', pre.points, s.points), ('log_l', pre.log_l, s.log_l)]
+    if pre.blobs is not None and s.blobs is not None:
+        lists.append(('blobs', pre.blobs, s.blobs))
+    for name, la, lb in lists:
+        for i, (a, b) in enumerate(zip(la, lb)):
+            a = np.asarray(a)
+            b = np.asarray(b)
+            if len(b) < len(a) or a.tobytes() != b[:len(a)].astype(a.dtype).tobytes():
+                V('not-append-only:' + name, 'shell {}: old {} ({} rows) is not a prefix of the '
+                  'new one ({} rows)'.format(i, name, len(a), len(b)))
+                break
+    if (pre.blobs is None) != (s.blobs is None):
+        V('blobs-appeared', 'blobs list appeared/disappeared after exploration')
+    return out
+
+
+def _mask_empty(s):
+    """toggle;toggle comparison: an empty shell's shell_log_v may be nan (freshly opened) or -inf
+    (rewritten by the setter); both mean 'empty' and every consumer treats them alike"""
+    for i in range(len(s.shell_n)):
+        if int(s.shell_n[i]) == 0:
+            s.shell_log_v[i] = -np.inf
+            s.shell_log_l[i] = np.nan
+    return s
+
+
+def public_stats(s):
+    with np.errstate(all='ignore'):
+        st = dict(log_z=s.log_z, n_eff=s.n_eff, n_like=s.n_like, f_live=s.f_live,
+                  shell_n=np.asarray(s.shell_n), discard=bool(s.discard_exploration))
+        if len(s.bounds) and np.sum(s.shell_n) > 0:
+            st['eta'] = s.eta
+            p = list(s.posterior(return_blobs=s.blobs is not None))
+            if isinstance(p[0], dict):
+                p[0] = [p[0][k] for k in sorted(p[0])]
+            st['posterior'] = p
+    return st
+
+
+def mon_toggle(ctx):
+    prop = 'C12'
+    import pickle
+    out = []
+    if ctx['exc'] is not None:
+        return out
+    act = _act(ctx)
+    s, pre = ctx['post'], ctx['pre']
+
+    def V(sig, msg):
+        out.append(Violation(prop, 'toggle:' + sig, msg))
+
+    # (a) discard on + explored: the view is exactly the samples evaluated after exploration ended
+    exp_set = ctx['new'].exp_points if ctx['new'] is not None else None
+    if act != 'observe' and s.explored and s._discard_exploration and exp_set is not None:
+        try:
+            with np.errstate(all='ignore'):
+                pts = _as_matrix(s.posterior()[0], ctx['scn'])
+            stored = np.concatenate([np.asarray(p) for p in s.points])
+            want = [r for r in stored if np.ascontiguousarray(r).tobytes() not in exp_set]
+            phys = _as_matrix(_transform(s, ctx['scn'], np.array(want).reshape(
+                len(want), stored.shape[1])), ctx['scn']) if len(want) else np.zeros((0, 0))
+            got = sorted(_rows_key([pts])) if len(pts) else []
+            exp = sorted(_rows_key([phys])) if len(want) else []
+            if got != exp:
+                V('discard-view-wrong', 'with discard_exploration on, posterior() shows {} rows; {} '
+                  'stored samples were evaluated after exploration ended'.format(len(got), len(exp)))
+        except Exception as e:
+            if len(np.concatenate([np.asarray(p) for p in s.points])) > 0 and int(np.sum(
+                    s.shell_n)) > 0:
+                V('discard-view-raises:' + type(e).__name__, 'posterior() raised with discard on: '
+                  '{}'.format(e))
+    # (b) toggle;toggle is the identity
+    if act == 'toggle':
+        p2 = pickle.loads(pickle.dumps(s))
+        try:
+            p2.discard_exploration = not bool(p2.discard_exploration)
+        except Exception as e:
+            V('second-toggle-raises:' + type(e).__name__, str(e))
+            return out
+        a = core.sampler_digest(_mask_empty(pickle.loads(pickle.dumps(pre))))
+        b = core.sampler_digest(_mask_empty(p2))
+        if a != b:
+            V('double-toggle-not-identity', 'toggle;toggle changed the sampler ({})'.format(
+                _diff_fields(_mask_empty(pickle.loads(pickle.dumps(pre))), _mask_empty(p2))))
+        else:
+            try:
+                if core.digest(public_stats(pre)) != core.digest(public_stats(p2)):
+                    V('double-toggle-statistics', 'toggle;toggle changed a public statistic')
+            except Exception:
+                pass
+        # a toggle changes nothing but the view: stored arrays untouched
+        for name in ('points', 'log_l', 'blobs', 'shell_n_sample', 'n_like', 'explored',
+                     'shell_end_exp', 'shell_n_sample_exp'):
+            if core.digest(getattr(pre, name)) != core.digest(getattr(s, name)):
+                V('toggle-alters:' + name, 'setting discard_exploration altered {}'.format(name))
+        if not s.explored and core.digest(public_stats_safe(pre, skip=('discard',))) != core.digest(
+                public_stats_safe(s, skip=('discard',))):
+            V('toggle-before-exploration-end-changes-statistics', 'toggling before exploration has '
+              'finished changed a public statistic')
+    return out
+
+
+def public_stats_safe(s, skip=()):
+    try:
+        d = public_stats(s)
+    except Exception as e:
+        return dict(error=type(e).__name__)
+    for k in skip:
+        d.pop(k, None)
+    return d
+
+
+def mon_resume_obs(prop):
+    """a sampler resumed from the file shows the same public statistics as the stopped one"""
+    def mon(ctx):
+        if _act(ctx) != 'resume' or ctx['exc'] is not None or ctx['state'].file is None:
+            return []
+        if ctx['state'].thist != ctx['state'].thist_ck:
+            return []       # a toggle after the last checkpoint is (legitimately) not persisted
+        a = public_stats_safe(ctx['pre'])
+        b = public_stats_safe(ctx['post'])
+        if 'error' in b and 'error' not in a:
+            return [Violation(prop, 'resume:statistics-raise:' + b['error'],
+                              'after resume, reading the public statistics raises {} (path has {} '
+                              'toggles)'.format(b['error'], ctx['state'].toggles))]
+        if core.digest(a) != core.digest(b):
+            diff = [k for k in a if core.digest(a.get(k)) != core.digest(b.get(k))]
+            return [Violation(prop, 'resume:statistics-differ:' + ','.join(diff),
+                              'the resumed sampler reports different {} than the stopped one'.format(
+                                  diff))]
+        return []
+    return mon
